@@ -135,6 +135,8 @@ def preludes(cfg):
         al['top'] = 1 if al['top'] != 1 else 2
     elif al['kind'] == 'sma':
         al['slow'] = al['slow'] + 1
+    elif al['kind'] == 'cycle':
+        al['vectors'] = list(reversed(al['vectors']))
     else:
         al['lookback'] = al['lookback'] + 1
     c['burn_in'] = None
@@ -168,12 +170,39 @@ def _two_source_handler(q, case):
         a = session.run_session(cfg, p_full, list(mk), data_handler=handler())
         h = handler()
         session.run_session(early, p_full, list(mk), data_handler=h)
+        import pandas as pd
+        for a_ in ['EQ:' + s for s in mk]:
+            for f_ in (h.get_asset_latest_bid_price, h.get_asset_latest_ask_price, h.get_asset_latest_mid_price):
+                try:
+                    f_(pd.Timestamp(d0.year, d0.month, d0.day, 15, 0), a_)       # a timestamp without a time zone
+                except Exception:                                 # noqa
+                    pass
         b = session.run_session(cfg, p_full, list(mk), data_handler=h)
     da, db = session.digest(a), session.digest(b)
     d = session.first_diff(da, db)
     if d or (a.error is None) != (b.error is None):
         raise Violation('a two-source data handler that already served a session over the early period gives different '
                         'results than a fresh one: %s' % (d or (a.error, b.error)))
+
+
+def _poke(q, ds, cfg, mk):
+    """Other requests a long-lived source / handler may have answered (or refused) before the session: a range query
+    for adjusted closes through a handler, a range query on the source, price queries with a timestamp that carries no
+    time zone.  Whatever they return or raise, they are read-only requests."""
+    import pandas as pd
+    h = q.BacktestDataHandler(None, data_sources=[ds])
+    s0, s1 = cal.ts6(cfg['start']), cal.ts6(cfg['end'])
+    assets = ['EQ:' + s for s in mk]
+    for f in (lambda: h.get_assets_historical_range_close_price(s0 - pd.Timedelta(days=5), s1, assets, adjusted=True),
+              lambda: h.get_assets_historical_range_close_price(s0, s1, assets),
+              lambda: ds.get_assets_historical_closes(s0 - pd.Timedelta(days=5), s1, assets),
+              lambda: h.get_asset_latest_bid_price(pd.Timestamp(s0.year, s0.month, s0.day, 15, 0), assets[0]),
+              lambda: h.get_asset_latest_mid_price(pd.Timestamp(s1.year, s1.month, s1.day), assets[-1])):
+        try:
+            f()
+        except Exception:                                         # noqa  (refusals are fine; lasting effects are not)
+            pass
+    return h
 
 
 def run_case(case):
@@ -213,6 +242,7 @@ def run_case(case):
                 for s_ in mk:
                     ds.get_bid(t_, 'EQ:' + s_)
                     ds.get_ask(t_, 'EQ:' + s_)
+        _poke(q, ds, cfg, mk)
         warm = session_digest(case, data_source=ds, path=path)
     d = session.first_diff(base, warm)
     if d or base['error'] != warm['error']:
@@ -260,6 +290,7 @@ def run_reuse(case):
         ds_h = q.CSVDailyBarDataSource(path, q.Equity, adjust_prices=cfg.get('adjust', True), csv_symbols=list(mk))
         h = q.BacktestDataHandler(None, data_sources=[ds_h])
         session_digest({'cfg': variant(cfg), 'market': mk}, data_source=ds_h, path=path, data_handler=h)
+        _poke(q, ds_h, cfg, mk)
         same_h = session_digest(case, data_source=ds_h, path=path, data_handler=h)
     clear_caches()
     d = session.first_diff(base, same_h)
@@ -322,7 +353,7 @@ def cases(draw, late=False):
     tie = draw(st.booleans())
     mk = draw(market.dense_markets(names, d0, (d1 - d0).days, lead=9, tie_prone=tie))
     cfg, lab = draw(sessgen.full_config(names, start, end, burn=draw(st.booleans()),
-                                        alpha_kinds=('topn', 'topn', 'fixed', 'single', 'sma', 'invvol'),
+                                        alpha_kinds=('topn', 'topn', 'fixed', 'single', 'sma', 'invvol', 'hist', 'hist', 'cycle'),
                                         entry_kinds=('start', 'before', 'on', 'mid', 'mid')))
     if cfg['universe']['kind'] == 'dynamic' and draw(st.booleans()):
         # several assets entering at the same instant
